@@ -13,6 +13,11 @@ CHECKS = {
             "Every unordered pair of 13 real writer/reader operations (message, run spawned/ended, side effects, cursor set/rotate, selection decided, manual/auto/scheduled compaction, branch, handoff, reader replay) on one shared thread, from a warm, a restarted and a restarted-cache-less store, plus sessions and linked runs sharing the log writer, is explored over all interleavings at lock / publish / cache / log-effect hooks with <=1 (quick) / <=2-3 (thorough, plus triples) preemptions; at quiescence a fresh EventLog must pass validated replay, every stream must read 0..n-1 in file order, every acknowledged id must appear once, and the same after a restart plus one more append per thread.",
             "2-3 actors, one op each; scheduling granularity = hook points (critical sections are the real ones: predicates read the real locks); preemption bound; histories crossing several restarts are covered by C05/C04.",
             "DESIGN.md §3 C01"),
+    "C05": ("K", "fault_enumeration",
+            "exhaustive crash-point enumeration: an LD_PRELOAD shim kills the real process before every mutating file-system call of every bounded history; recovery oracle on the leftover directory",
+            "Every history of <=2 (quick) / <=3 (all 11 ops) and 4 (5 cheapest ops) operations after open+ensure_default runs in a subprocess under the shim once per mutating syscall on a store path (3-95 crash points per history, 4.6k quick / 95k thorough in total); after each kill a fresh authority must replay and validate the log, find every acknowledged frame exactly once, find every referenced artifact, resolve the default thread, continue the numbering after one append per thread, and answer every read capability as with the caches removed.",
+            "Crash model = process death at syscall boundaries with atomic write(2) (no power loss / write-back reordering: rip never fsyncs); the shim interposes libc's open*/creat/write/writev/pwrite*/rename*/unlink*/mkdir*/rmdir/ftruncate*/link/symlink; one authority, single-threaded history.",
+            "DESIGN.md §3 C05"),
     "C06": ("S", "model_checking",
             "stateless schedule exploration (CHESS-style token-passing scheduler over OS threads, DFS over choice sequences) of the real emitters racing the real SSE handlers through the production router",
             "For the session, task and thread streams (thread with the sidecar present and deleted) every interleaving of the producer's lock/publish/record steps with one subscriber's subscribe / snapshot steps is executed with no preemption bound (two subscribers: preemption bound 2 in quick for sessions, all kinds in thorough); each execution runs the real run_session / TaskEmitter::emit / append_message against the real GET .../events handler, and the frames the subscriber's body yields must be exactly the stream's frames in the log, once, in order.",
@@ -86,6 +91,8 @@ def main():
         "engines": [
             {"name": "S", "path": "/verif/harness/src/sched.rs", "serves_properties": sorted(k for k, v in CHECKS.items() if v[0] == "S"),
              "kind_free_text": "stateless schedule explorer: cooperative token-passing scheduler over OS threads running the real code, scheduling points at the cfg(rip_verif) hooks, lock predicates on the real locks, DFS with preemption bounding, deterministic replay"},
+            {"name": "K", "path": "/verif/harness/src/c05.rs + /verif/harness/shim/crashshim.c", "serves_properties": ["C05"],
+             "kind_free_text": "crash-point enumerator: LD_PRELOAD shim counting mutating fs calls on store paths, _exit before call k for every k, recovery oracle in the parent"},
             {"name": "H-bfs", "path": "/verif/harness/src", "serves_properties": ["C20"],
              "kind_free_text": "bounded exhaustive sequence/input enumeration over the real code (BFS with state keys where futures coincide)"},
             {"name": "H-histories", "path": "/verif/harness/src", "serves_properties": sorted(k for k, v in CHECKS.items() if v[0] == "H-histories"),
